@@ -1,4 +1,5 @@
 import SimilarVerif.Lemmas.Group
+import SimilarVerif.Lemmas.GroupCaptured
 /-!
 # C12 — grouping keeps every change once, in order, with exactly `n` items of context
 
@@ -82,5 +83,44 @@ example : groupDiffOps [.equal 0 0 5, .equal 5 5 5] 1 = [[.equal 4 4 1, .equal 5
 /-- non-vacuity: a concrete alternating list with two changes 7 > 2·1 items apart splits in two -/
 example : groupDiffOps [.equal 0 0 5, .delete 5 1 5, .equal 6 5 7, .insert 13 12 1, .equal 13 13 2] 1 =
     [[.equal 4 4 1, .delete 5 1 5, .equal 6 5 1], [.equal 12 11 1, .insert 13 12 1, .equal 13 13 1]] := by decide
+
+end SimilarVerif.C12
+
+namespace SimilarVerif.C12
+open SimilarVerif Spec
+
+/-- a valid script whose Equal / non-Equal ops alternate satisfies the `AltOps` hypothesis -/
+theorem altOps_of_walk_alternating : type_of% @GroupCap.altOps_of_walk_alternating :=
+  @GroupCap.altOps_of_walk_alternating
+
+/-- the op list of every captured diff satisfies `AltOps` -/
+theorem captured_altOps : type_of% @GroupCap.captured_altOps := @GroupCap.captured_altOps
+
+/-- **C12 for every captured diff, no hypothesis on the op list**: for every algorithm, shipped and repaired
+clean-up, in-bounds ranges and every world `capture_diff` returns ops for which — for every radius `n` — all
+clauses hold: `keeps_changes`, `has_change`, `no_changes`, `contiguous`, `equal_bounds`,
+`leading_context`, `trailing_context`, `separation`, `group_is_walk` (in this order) -/
+theorem group_captured : type_of% @GroupCap.group_captured := @GroupCap.group_captured
+
+/-- non-vacuity: the hypotheses of `group_captured` are satisfiable (`[0,1,2]` vs `[0,2,2]`, all algorithms) -/
+example (alg : Alg) (w : World) :=
+  group_captured alg (Env.ofSeqs #[0, 1, 2] #[0, 2, 2]) false 0 3 0 3 w (by omega) (by omega)
+    (by
+      intro i j _ hi _ hj
+      have : i = 0 ∨ i = 1 ∨ i = 2 := by omega
+      have : j = 0 ∨ j = 1 ∨ j = 2 := by omega
+      rcases ‹i = 0 ∨ i = 1 ∨ i = 2› with rfl | rfl | rfl <;>
+        rcases ‹j = 0 ∨ j = 1 ∨ j = 2› with rfl | rfl | rfl <;> decide)
+    (fun _ => by
+      constructor <;>
+      · intro i j _ hi _ hj
+        have : i = 0 ∨ i = 1 ∨ i = 2 := by omega
+        have : j = 0 ∨ j = 1 ∨ j = 2 := by omega
+        rcases ‹i = 0 ∨ i = 1 ∨ i = 2› with rfl | rfl | rfl <;>
+          rcases ‹j = 0 ∨ j = 1 ∨ j = 2› with rfl | rfl | rfl <;> decide)
+
+#print axioms altOps_of_walk_alternating
+#print axioms captured_altOps
+#print axioms group_captured
 
 end SimilarVerif.C12
